@@ -23,6 +23,8 @@ is a shape the extractor does not understand (fail-closed, less serious, still w
     else-after-exit / no-else-after-exit   `if c: return ..; REST`  <->  `if c: return ..  else: REST`
     return-ifexp   return a if c else b  ->  if c: return a; return b
     self-aug-expand  self.n -= 1     ->  self.n = self.n - 1
+    comprehension-forms / comprehension-calls   set(x for ..) <-> {x for ..}, list(..) <-> [..], dict((k, v) for ..) <-> {k: v for ..}
+    swap-independent   x = <pure>; y = <pure>  ->  y = <pure>; x = <pure>
     extract-alias  .. x.costs[a] .. x.costs[b] ..  ->  alias = x.costs; .. alias[a] .. alias[b] ..
     inline-alias   c = x.costs; .. c[k] ..  ->  .. x.costs[k] ..   (top-level local bound once to an attribute chain of a parameter)
 
@@ -478,6 +480,78 @@ class ExtractAlias(Rewrite):
         return node
 
 
+
+class ComprehensionForms(Rewrite):
+    """set(x for ..) -> {x for ..}; list(x for ..) -> [x for ..]; dict((k, v) for ..) -> {k: v for ..}
+    (what pyupgrade / flake8-comprehensions rewrite automatically)"""
+
+    def visit_Call(self, node):
+        node = self.generic_visit(node)
+        if isinstance(node.func, ast.Name) and node.func.id in ("set", "list", "dict") and len(node.args) == 1 and not node.keywords and isinstance(node.args[0], ast.GeneratorExp):
+            gen = node.args[0]
+            if node.func.id == "set" and self.hit():
+                return ast.SetComp(elt=gen.elt, generators=gen.generators)
+            if node.func.id == "list" and self.hit():
+                return ast.ListComp(elt=gen.elt, generators=gen.generators)
+            if node.func.id == "dict" and isinstance(gen.elt, ast.Tuple) and len(gen.elt.elts) == 2 and self.hit():
+                return ast.DictComp(key=gen.elt.elts[0], value=gen.elt.elts[1], generators=gen.generators)
+        return node
+
+
+class ComprehensionCalls(Rewrite):
+    """{x for ..} -> set(x for ..); [x for ..] -> list(x for ..); {k: v for ..} -> dict((k, v) for ..)"""
+
+    def visit_SetComp(self, node):
+        node = self.generic_visit(node)
+        if self.hit():
+            return ast.Call(func=ast.Name(id="set", ctx=ast.Load()), args=[ast.GeneratorExp(elt=node.elt, generators=node.generators)], keywords=[])
+        return node
+
+    def visit_ListComp(self, node):
+        node = self.generic_visit(node)
+        if self.hit():
+            return ast.Call(func=ast.Name(id="list", ctx=ast.Load()), args=[ast.GeneratorExp(elt=node.elt, generators=node.generators)], keywords=[])
+        return node
+
+    def visit_DictComp(self, node):
+        node = self.generic_visit(node)
+        if self.hit():
+            return ast.Call(func=ast.Name(id="dict", ctx=ast.Load()), args=[ast.GeneratorExp(elt=ast.Tuple(elts=[node.key, node.value], ctx=ast.Load()), generators=node.generators)], keywords=[])
+        return node
+
+
+class SwapIndependent(Rewrite):
+    """x = <pure>; y = <pure>  ->  y = <pure>; x = <pure>   (adjacent plain assignments to different names whose values
+    are call-free and do not read each other's target)"""
+
+    def _pure(self, e):
+        return not any(isinstance(x, (ast.Call, ast.Await, ast.Yield, ast.YieldFrom, ast.NamedExpr)) for x in ast.walk(e))
+
+    def _block(self, stmts):
+        stmts = [self.visit(st) for st in stmts]
+        i = 0
+        while i + 1 < len(stmts):
+            a, b = stmts[i], stmts[i + 1]
+            if (
+                isinstance(a, ast.Assign) and isinstance(b, ast.Assign) and len(a.targets) == 1 and len(b.targets) == 1
+                and isinstance(a.targets[0], ast.Name) and isinstance(b.targets[0], ast.Name) and a.targets[0].id != b.targets[0].id
+                and self._pure(a.value) and self._pure(b.value)
+                and a.targets[0].id not in {x.id for x in ast.walk(b.value) if isinstance(x, ast.Name)}
+                and b.targets[0].id not in {x.id for x in ast.walk(a.value) if isinstance(x, ast.Name)}
+                and self.hit()
+            ):
+                stmts[i], stmts[i + 1] = b, a
+                i += 2
+                continue
+            i += 1
+        return stmts
+
+    generic_visit = IfExpToStmt.generic_visit
+
+    def visit_Lambda(self, node):
+        return node
+
+
 def package_signatures(prog):
     seen, dup = {}, set()
     for mod in prog.modules.values():
@@ -517,6 +591,9 @@ REWRITES = {
     "self-aug-expand": lambda sig, only: SelfAugExpand(only),
     "inline-alias": lambda sig, only: InlineAlias(only),
     "extract-alias": lambda sig, only: ExtractAlias(only),
+    "comprehension-forms": lambda sig, only: ComprehensionForms(only),
+    "comprehension-calls": lambda sig, only: ComprehensionCalls(only),
+    "swap-independent": lambda sig, only: SwapIndependent(only),
 }
 
 
